@@ -2,7 +2,7 @@
 from dataclasses import dataclass
 from typing import Optional, Union
 
-from ..exceptions import odxraise, odxrequire
+from ..exceptions import EncodeError, odxraise, odxrequire
 from ..odxtypes import AtomicOdxType, DataType
 from .compuscale import CompuScale
 from .limit import Limit
@@ -105,7 +105,13 @@ class LinearSegment:
                 DataType.A_INT32,
                 DataType.A_UINT32,
         ]:
-            result = round(result)
+            try:
+                result = round(result)
+            except (OverflowError, ValueError):
+                # infinite or NaN
+                odxraise(f"Physical value {physical_value!r} cannot be converted to an integer",
+                         EncodeError)
+                return 0
 
         return result
 
